@@ -23,14 +23,14 @@ Definition conns_B : list conn :=
   flat_map (fun k : conn => let '(x, p, ic, q) := k in
               if Pos.eqb ic c then
                 flat_map (fun k2 : conn => let '(u2, p2, d, q') := k2 in
-                            if Pos.eqb u2 ext_id && Pos.eqb p2 q then [(x, p, d, q')] else [])
+                            if Pos.eqb u2 ext_id && Pos.eqb p2 q && negb (Pos.eqb d exp_id) then [(x, p, d, q')] else [])
                          (l_conns in_level)
               else [])
            (l_conns top_level).
 (* [d.p -> expose o] -> c.o -> y.q *)
 Definition conns_C : list conn :=
   flat_map (fun k2 : conn => let '(d, p, e, o) := k2 in
-              if Pos.eqb e exp_id then
+              if Pos.eqb e exp_id && negb (Pos.eqb d ext_id) then
                 flat_map (fun k : conn => let '(oc, op, y, q) := k in
                             if Pos.eqb oc c && Pos.eqb op o then [(d, p, y, q)] else [])
                          (l_conns top_level)
@@ -40,11 +40,25 @@ Definition conns_C : list conn :=
 Definition conns_D : list conn :=
   filter (fun k : conn => negb (Pos.eqb (out_comp k) ext_id) && negb (Pos.eqb (in_comp k) exp_id)) (l_conns in_level).
 
+(* pass-through ports: x.p -> c.q -> [external q -> expose o] -> c.o -> y.q' *)
+Definition conns_E : list conn :=
+  flat_map (fun k : conn => let '(x, p, ic, q) := k in
+              if Pos.eqb ic c then
+                flat_map (fun k2 : conn => let '(u2, q2, e, o) := k2 in
+                            if Pos.eqb u2 ext_id && Pos.eqb q2 q && Pos.eqb e exp_id then
+                              flat_map (fun k3 : conn => let '(oc, op, y, q') := k3 in
+                                          if Pos.eqb oc c && Pos.eqb op o then [(x, p, y, q')] else [])
+                                       (l_conns top_level)
+                            else [])
+                         (l_conns in_level)
+              else [])
+           (l_conns top_level).
+
 Definition inline_order : list (comp * ckind) :=
   flat_map (fun ck : comp * ckind => if Pos.eqb (fst ck) c then l_order in_level else [ck]) (l_order top_level).
 
 Definition inline : config :=
-  upd top {| l_order := inline_order; l_conns := conns_A ++ conns_B ++ conns_C ++ conns_D |} cfg.
+  upd top {| l_order := inline_order; l_conns := conns_A ++ conns_B ++ conns_C ++ conns_D ++ conns_E |} cfg.
 End Inline.
 
 (* ---------- the configurations the inlining theorem speaks about, as a decision procedure:
